@@ -147,6 +147,11 @@ _MISSING = object()
 def _next(I, it, default=_MISSING):
     """next() of a generator expression / iterator the engine has materialised: its first element (generator expressions are evaluated eagerly; the
     conditions of the elements before the first hit are the same ones a lazy evaluation would test)."""
+    from .symex import GenIter
+    if isinstance(it, GenIter):
+        if it.pos < len(it.items) or default is _MISSING:
+            return it.take()
+        return default
     items = I.iterate(it)
     if items:
         return items[0]
@@ -910,16 +915,31 @@ def _tolist(I, a):
     return a.data.tolist()
 
 
+def _keepdims(res, a, axis, keepdims):
+    """numpy's keepdims=True: the reduced axes stay with length one (so that the result broadcasts against the operand)."""
+    if not keepdims:
+        return res
+    shape = tuple(1 for _ in a.shape) if axis is None else tuple(1 if k == (axis % len(a.shape)) else n for k, n in enumerate(a.shape))
+    if isinstance(res, NDArr):
+        return NDArr(res.data.reshape(shape), res.kind)
+    out = np.empty(shape, dtype=object)
+    out.reshape(-1)[0] = res
+    return NDArr(out, a.kind)
+
+
 @model("ndarray.sum", "numpy.sum")
-def _np_sum(I, a, axis=None, **kw):
+def _np_sum(I, a, axis=None, keepdims=False, **kw):
     a = as_arr(a)
+    if kw:
+        raise Unsupported(f"sum with arguments {sorted(kw)}")
+    if isinstance(axis, tuple) or (keepdims not in (True, False)):
+        raise Unsupported("sum over several axes / symbolic keepdims")
     if axis is None:
         acc = Fraction(0) if a.kind == "f" else 0
         for x in a.flat():
             acc = num_binop("+", acc, b_ite(x, 1, 0) if (is_sym(x) and z3.is_bool(x)) else x)
-        return acc
-    d = np.add.reduce(a.data, axis=axis) if a.data.size else None
-    return _scalar_or_arr(_reduce(a, axis, lambda x, y: num_binop("+", x, y)), a.kind)
+        return _keepdims(acc, a, None, keepdims)
+    return _keepdims(_scalar_or_arr(_reduce(a, axis, lambda x, y: num_binop("+", x, y)), a.kind), a, axis, keepdims)
 
 
 def _reduce(a, axis, f):
@@ -939,8 +959,10 @@ def _wrap(d):
 
 
 @model("ndarray.min", "numpy.min", "numpy.amin")
-def _np_min(I, a, axis=None):
+def _np_min(I, a, axis=None, keepdims=False):
     a = as_arr(a)
+    if keepdims:
+        raise Unsupported("min with keepdims")
     f = lambda x, y: b_ite(num_cmp("<", x, y), x, y) if (is_sym(x) or is_sym(y)) else min(x, y)
     if axis is None:
         items = a.flat()
@@ -952,8 +974,10 @@ def _np_min(I, a, axis=None):
 
 
 @model("ndarray.max", "numpy.max", "numpy.amax")
-def _np_max(I, a, axis=None):
+def _np_max(I, a, axis=None, keepdims=False):
     a = as_arr(a)
+    if keepdims:
+        raise Unsupported("max with keepdims")
     f = lambda x, y: b_ite(num_cmp(">", x, y), x, y) if (is_sym(x) or is_sym(y)) else max(x, y)
     if axis is None:
         items = a.flat()
@@ -965,13 +989,13 @@ def _np_max(I, a, axis=None):
 
 
 @model("ndarray.mean", "numpy.mean")
-def _np_mean(I, a, axis=None):
+def _np_mean(I, a, axis=None, keepdims=False):
     a = as_arr(a)
     s = _np_sum(I, a, axis=axis)
     n = a.data.size if axis is None else a.shape[axis]
     if isinstance(s, NDArr):
-        return NDArr(elementwise(lambda x: num_binop("/", to_real(x), n), s), "f")
-    return num_binop("/", to_real(s), n)
+        return _keepdims(NDArr(elementwise(lambda x: num_binop("/", to_real(x), n), s), "f"), a, axis, keepdims)
+    return _keepdims(num_binop("/", to_real(s), n), a, axis, keepdims)
 
 
 @model("ndarray.dot", "numpy.dot", "numpy.matmul")
@@ -1015,6 +1039,14 @@ def _dot(I, a, b):
 def _vdot(I, a, b):
     a, b = as_arr(a), as_arr(b)
     return _dot(I, NDArr(a.data.reshape(-1), a.kind), NDArr(b.data.reshape(-1), b.kind))
+
+
+@model("numpy.shares_memory", "numpy.may_share_memory")
+def _shares_memory(I, a, b, **kw):
+    """Views of the engine's arrays are numpy's own views of the underlying object arrays, so sharing is decided by numpy itself."""
+    if not isinstance(a, NDArr) or not isinstance(b, NDArr):
+        return False
+    return bool(np.shares_memory(a.data, b.data))
 
 
 @model("numpy.cross")
